@@ -3,7 +3,9 @@ package main
 
 import (
 	"bufio"
+	"context"
 	"errors"
+	"io"
 	"fmt"
 	"go/ast"
 	"os"
@@ -130,7 +132,7 @@ func extract(a hx.ExtractArgs) error {
 //   e<k>         return the k-th distinct error value
 //   p<kind>      panic with a value of that kind
 //   N(<group>)   run a nested guarded group and return its Wait()
-// optionally suffixed by @<ms> (sleep before acting; staggered cases force the completion order).
+// optionally suffixed by @1 (the failing function that completes first) or @2 (acts only after the group recorded its first error).
 
 type fnSpec struct {
 	kind   string // n | e | p | N
@@ -139,7 +141,49 @@ type fnSpec struct {
 	nested []fnSpec
 }
 
-var panicKinds = []string{"nil", "err", "str", "int", "struct", "rtidx", "rtnilmap", "stringer", "errnilptr"}
+var panicKinds = []string{"nil", "err", "str", "int", "struct", "rtidx", "rtnilmap", "stringer", "errnilptr", "baderror", "badstringer", "eof", "badptrstringer"}
+
+// badErr / badStringer: values whose own Error()/String() method panics (fmt's %v verb protects against that).
+type badErr struct{ p *int }
+
+func (b *badErr) Error() string { return fmt.Sprint(*b.p) }
+
+type badStringer struct{ m map[string]*int }
+
+func (b badStringer) String() string { return fmt.Sprint(*b.m["missing"]) }
+
+type ptrStringer struct{ x int }
+
+func (p *ptrStringer) String() string { return fmt.Sprint(p.x) }
+
+func panicValue(kind string) any {
+	switch kind {
+	case "err":
+		return errors.New("boom-error")
+	case "str":
+		return "boom string"
+	case "int":
+		return 42
+	case "struct":
+		return struct{ A, B int }{1, 2}
+	case "stringer":
+		return myStringer{7}
+	case "errnilptr":
+		var e *ptrErr
+		return error(e)
+	case "baderror":
+		var b *badErr
+		return error(b)
+	case "badstringer":
+		return badStringer{}
+	case "eof":
+		return io.EOF
+	case "badptrstringer":
+		var p *ptrStringer
+		return p
+	}
+	return nil
+}
 
 type myStringer struct{ a int }
 
@@ -149,20 +193,14 @@ type ptrErr struct{}
 
 func (*ptrErr) Error() string { return "ptrErr" }
 
-var errVals = []error{errors.New("E0"), errors.New("E1"), errors.New("E2"), fmt.Errorf("wrapped: %w", errors.New("inner"))}
+var errVals = []error{errors.New("E0"), errors.New("E1"), errors.New("E2"), fmt.Errorf("wrapped: %w", errors.New("inner")),
+	io.EOF, fmt.Errorf("read failed: %w", io.EOF), errors.Join(errors.New("first"), io.EOF), context.Canceled, io.ErrUnexpectedEOF,
+	context.DeadlineExceeded, &ptrErr{}, error((*ptrErr)(nil))}
 
 func doPanic(kind string) {
 	switch kind {
 	case "nil":
 		panic(nil)
-	case "err":
-		panic(errors.New("boom-error"))
-	case "str":
-		panic("boom string")
-	case "int":
-		panic(42)
-	case "struct":
-		panic(struct{ A, B int }{1, 2})
 	case "rtidx":
 		var s []int
 		i := 3
@@ -170,11 +208,8 @@ func doPanic(kind string) {
 	case "rtnilmap":
 		var m map[string]int
 		m["x"] = 1
-	case "stringer":
-		panic(myStringer{7})
-	case "errnilptr":
-		var e *ptrErr
-		panic(error(e))
+	default:
+		panic(panicValue(kind))
 	}
 	panic("unknown kind")
 }
@@ -183,24 +218,15 @@ func expectedPanicText(kind string) string {
 	switch kind {
 	case "nil":
 		return "panic called with nil argument"
-	case "err":
-		return "boom-error"
-	case "str":
-		return "boom string"
-	case "int":
-		return "42"
-	case "struct":
-		return "{1 2}"
 	case "rtidx":
 		return "runtime error: index out of range [3] with length 0"
 	case "rtnilmap":
 		return "assignment to entry in nil map"
-	case "stringer":
-		return "stringer-7"
-	case "errnilptr":
-		return "ptrErr"
+	case "rtidx2":
+		return "?"
 	}
-	return "?"
+	// what fmt's %v verb prints for the value (fmt recovers from panicking Error/String methods)
+	return fmt.Sprintf("%v", panicValue(kind))
 }
 
 func (f fnSpec) String() string {
@@ -276,12 +302,14 @@ func tokenize(s string) []string {
 
 // runGroup executes the group with the real errguard.Go and returns Wait()'s result.
 func runGroup(fns []fnSpec) error {
-	var g errgroup.Group
+	g, gctx := errgroup.WithContext(context.Background())
 	for _, f := range fns {
 		f := f
-		errguard.Go(&g, func() error {
-			if f.delay > 0 {
-				time.Sleep(time.Duration(f.delay) * time.Millisecond)
+		errguard.Go(g, func() error {
+			if f.delay >= 2 {
+				// "later" function: acts only after the group has recorded its first error
+				// (errgroup cancels the context right after storing it), so the completion order is forced
+				<-gctx.Done()
 			}
 			switch f.kind {
 			case "n":
@@ -430,7 +458,7 @@ func run(a hx.RunArgs) error {
 	defer out.Close()
 	out.Rule = "groups of 1-5 functions run through the real errguard.Go + errgroup.Wait in child processes (a process crash is an observation): " +
 		"each function returns nil / one of 4 error values / panics with one of 9 value kinds (nil, error, string, int, struct, runtime errors, Stringer, typed-nil error) / runs a nested guarded group; " +
-		"unstaggered groups have at most one failing function (order-independent result); staggered groups (20 ms apart) force the completion order; non-trivial = some function fails"
+		"unstaggered groups have at most one failing function (order-independent result); ordered groups force which failing function completes first (the others wait on the group's context); non-trivial = some function fails"
 	r := hx.NewRand(a.Seed)
 	var specs []string
 	var groups [][]fnSpec
@@ -452,9 +480,9 @@ func run(a hx.RunArgs) error {
 		add([]fnSpec{{kind: "e", arg: strconv.Itoa(k)}})
 	}
 	add([]fnSpec{{kind: "N", nested: []fnSpec{{kind: "p", arg: "str"}, {kind: "n"}}}})
-	n, nStag := 1500, 25
+	n, nStag := 1500, 400
 	if a.Thorough {
-		n, nStag = 60000, 400
+		n, nStag = 60000, 20000
 	}
 	for i := 0; i < n; i++ {
 		cnt := 1 + r.Intn(5)
@@ -480,19 +508,23 @@ func run(a hx.RunArgs) error {
 		add(fns)
 	}
 	for i := 0; i < nStag; i++ {
-		cnt := 2 + r.Intn(3)
-		perm := make([]int, cnt)
-		for j := range perm {
-			perm[j] = j
-		}
-		for j := cnt - 1; j > 0; j-- {
-			k := r.Intn(j + 1)
-			perm[j], perm[k] = perm[k], perm[j]
-		}
+		// forced completion order: exactly one failing function acts first (@1); every other failing
+		// function (@2) waits until the group has recorded its first error; nil-returning ones are free
+		cnt := 2 + r.Intn(4)
+		first := r.Intn(cnt)
 		fns := make([]fnSpec, cnt)
 		for j := range fns {
-			fns[j] = genFn(r, 0)
-			fns[j].delay = 1 + 20*perm[j]
+			if j == first {
+				for !failing(fns[j]) {
+					fns[j] = genFn(r, 0)
+				}
+				fns[j].delay = 1
+			} else {
+				fns[j] = genFn(r, 0)
+				if failing(fns[j]) {
+					fns[j].delay = 2
+				}
+			}
 		}
 		add(fns)
 	}
